@@ -148,3 +148,51 @@ func (l *Loop) RangeSource() ssa.Value {
 	}
 	return nil
 }
+
+// MaxPerIteration returns the largest total weight of the instructions on one pass through the
+// loop body (header to the next entry of the header or to a loop exit). An inner loop that
+// contains a weighted instruction makes the count unbounded (Sat*1000 is returned).
+func (l *Loop) MaxPerIteration(fn *ssa.Function, w func(in ssa.Instruction) int) int {
+	const unbounded = Sat * 1000
+	for _, inner := range Loops(fn) {
+		if inner == l || !l.Body[inner.Header] || inner.Header == l.Header {
+			continue
+		}
+		for b := range inner.Body {
+			for _, in := range b.Instrs {
+				if w(in) > 0 {
+					return unbounded
+				}
+			}
+		}
+	}
+	memo := map[*ssa.BasicBlock]int{}
+	on := map[*ssa.BasicBlock]bool{}
+	var dfs func(b *ssa.BasicBlock) int
+	dfs = func(b *ssa.BasicBlock) int {
+		if v, ok := memo[b]; ok {
+			return v
+		}
+		if on[b] {
+			return 0
+		}
+		on[b] = true
+		own := 0
+		for _, in := range b.Instrs {
+			own += w(in)
+		}
+		best := 0
+		for _, s := range b.Succs {
+			if s == l.Header || !l.Body[s] {
+				continue
+			}
+			if v := dfs(s); v > best {
+				best = v
+			}
+		}
+		on[b] = false
+		memo[b] = own + best
+		return own + best
+	}
+	return dfs(l.Header)
+}
